@@ -64,6 +64,34 @@ GProg(n, E, kd, wrap) ==
           <<Inj("Inject", params, TN(1), FALSE, FALSE, IF wrap = "set" THEN <<ItS(1)>> ELSE all)>>)
 
 \* kinds: "all" = every assignment of {f,p,n}; "f" = all nodes are providers (the cycle family)
+\* (an Init predicate over p, so that TLC enumerates the family as initial states)
+FamilyG(p, n, kinds, wraps) ==
+  \E kd \in (IF kinds = "f" THEN {[i \in 1..n |-> "f"]} ELSE [1..n -> {"f", "p", "n"}]) :
+    \E E \in SUBSET ({i \in 1..n : kd[i] = "f"} \X (1..n)) :
+      \E w \in wraps : p = GProg(n, E, kd, w)
+======================================================================== *)
+(* Family G: every digraph over n types.  Node kinds: "f" provider function *)
+(* (its parameters are its successors, ascending), "p" injector parameter,  *)
+(* "n" nothing provides it.  Only "f" nodes have outgoing edges.  The       *)
+(* injector asks for T1.  wrap: "set" = wire.Build(SetA) with all providers *)
+(* in SetA (so unused or cyclic parts are legal/visible), "dir" = all       *)
+(* providers passed to wire.Build directly.                                 *)
+(* ======================================================================== *)
+EdgeCode(n, E) == SumSeq([k \in 1..(n * n) |->
+                    IF <<((k - 1) \div n) + 1, ((k - 1) % n) + 1>> \in E THEN Pow2(k - 1) ELSE 0])
+GProg(n, E, kd, wrap) ==
+  LET fn     == SeqOfSet({i \in 1..n : kd[i] = "f"})
+      succ(i)== SeqOfSet({j \in 1..n : <<i, j>> \in E})
+      leaves == [k \in DOMAIN fn |-> Func(PN(fn[k]), [x \in DOMAIN succ(fn[k]) |-> TN(succ(fn[k])[x])], TN(fn[k]), FALSE, FALSE)]
+      pars   == SeqOfSet({i \in 1..n : kd[i] = "p"})
+      params == [k \in DOMAIN pars |-> Par("a" \o ToString(pars[k]), TN(pars[k]))]
+      all    == [k \in DOMAIN fn |-> ItL(k)]
+      key    == "G/n" \o ToString(n) \o "/e" \o ToString(EdgeCode(n, E)) \o "/" \o ConcatStr(kd) \o "/" \o wrap
+  IN Prog(key, "G", [i \in 1..n |-> Tok(TN(i))], leaves,
+          IF wrap = "set" THEN <<SetD("SetA", "a", all)>> ELSE <<>>,
+          <<Inj("Inject", params, TN(1), FALSE, FALSE, IF wrap = "set" THEN <<ItS(1)>> ELSE all)>>)
+
+\* kinds: "all" = every assignment of {f,p,n}; "f" = all nodes are providers (the cycle family)
 FamilyG(n, kinds, wraps) ==
   UNION { UNION { { GProg(n, E, kd, w) : w \in wraps }
                   : E \in SUBSET ({i \in 1..n : kd[i] = "f"} \X (1..n)) }
